@@ -4,6 +4,7 @@
 import XonshVerif.Model.Wire
 import XonshVerif.Model.ProcArgs
 import XonshVerif.Model.DriverPeg
+import XonshVerif.Model.DriverTok
 namespace XV.Driver
 open XV XV.Wire
 
@@ -31,6 +32,7 @@ def handle (line : String) : String :=
   match fields line with
   | "procargs" :: rest => " ".intercalate ((procArgs (readPieces rest)).map encArg)
   | "parse" :: rest => handleParse rest
+  | "tok" :: rest => handleTok rest
   | "ping" :: _ => "pong"
   | _ => "bad-request"
 
